@@ -114,8 +114,8 @@ def gen_preds(rng, k=None):
 
 
 def gen_body(rng, excs, exc_view):
-    # a body that raises PredicateMismatch is, for _call_view, a predicate mismatch (the search goes on): outside the model
-    ok = [i for i, x in enumerate(excs) if x['cls'] != 'PM']
+    # a body that raises PredicateMismatch is, for _call_view, a predicate mismatch: the search goes on (modelled)
+    ok = list(range(len(excs)))
     r = rng.random()
     if exc_view:
         act = ['ret'] if (r < 0.6 or not ok) else ['ctx'] if r < 0.8 else ['raise', rng.choice(ok)]
@@ -246,8 +246,6 @@ def valid(case):
                 return False
             a = v['body']['act']
             if not (a in (['ret'], ['ctx']) or (len(a) == 2 and a[0] == 'raise' and okid(a[1]))):
-                return False
-            if a[0] == 'raise' and case['excs'][a[1]]['cls'] == 'PM':
                 return False
             if not isinstance(v['body']['touch'], bool):
                 return False
@@ -714,10 +712,14 @@ def to_wire(case):
     return d['wire'] + [d['obs']]
 
 
+_PREM = {}
+
+
 def from_wire(case, raw):
-    if raw == [['bad']] or not isinstance(raw, list) or any(not (isinstance(p, list) and len(p) == 5) for p in raw):
+    if raw == [['bad']] or not isinstance(raw, list) or any(not (isinstance(p, list) and len(p) == 6) for p in raw):
         return {'model': ['MODEL-BAD', raw], 'spec': None}
-    return {'model': [p[0] for p in raw], 'spec': [[p[1], p[2], sorted(p[3]), p[4]] for p in raw]}
+    _PREM[_key(case)] = [p[5] for p in raw]
+    return {'model': [p[0] for p in raw], 'spec': [[p[1], p[2], sorted(p[3]), p[4], p[5]] for p in raw]}
 
 
 def run_impl(case):
@@ -802,6 +804,8 @@ def kinds(case, obs):
         o = f[1]
         k.append('final:' + ({0: 'view-response', 2: 'propagated'}.get(o[0]) or 'exc-response-%d' % o[2]))
         xb = _excbodies(tr)
+        if len(xb) > 1 or len([e for e in tr if e[0] == 0 and e[2] == A.CTX_RESOURCE]) > 1:
+            k.append('search-went-on-after-a-body-raised-PredicateMismatch')
         if xb:
             k.append('excview-ran')
             act = {v['tag']: v['body']['act'][0] for v in case['views']}
@@ -848,6 +852,8 @@ def kinds(case, obs):
     if d and d['conflict']:
         k.append('cfg:conflict-fallback')
     k.append('cfg:autocommit' if case['autocommit'] else 'cfg:batched')
+    for ok in _PREM.get(_key(case), []):
+        k.append('theorem-premises:' + ('hold' if ok else 'fail'))
     return k
 
 
@@ -884,7 +890,7 @@ def targeted(broken, disagreements, rng):
                 if _exc_decl(v) and v['dir'] in ('view', 'exc') and rng.random() < 0.6:
                     v['ctx'] = rng.choice(MARKS)
         elif k == 3:
-            ok = [j for j, x in enumerate(c['excs']) if x['cls'] != 'PM']
+            ok = list(range(len(c['excs'])))
             for v in c['views']:
                 if _exc_decl(v) and ok and rng.random() < 0.7:
                     v['body'] = {'touch': rng.random() < 0.5, 'act': ['raise', rng.choice(ok)]}
